@@ -94,4 +94,15 @@ Definition no_ds_decision (target : name) (gs : list dgroup) : outcome cnsec :=
   | CNothing => nsec3_for_ds target gs
   | other => Ok other
   end.
+(* create_child_node on a DS reply without a DS RRset for the name: a CNAME RRset at the name
+   in the answer section decides first - validated under the parent's keys it makes the name a
+   secure intermediate node, otherwise the delegation is bogus (validate_with_node under a
+   secure parent yields Secure or Bogus only) - then the NSEC / NSEC3 proofs *)
+Inductive ds_cname := NoCname | CnameValid | CnameInvalid.
+Definition ds_reply_decision (target : name) (cn : ds_cname) (gs : list dgroup) : outcome cnsec :=
+  match cn with
+  | CnameValid => Ok SecureIntermediate
+  | CnameInvalid => Ok CBogus
+  | NoCname => no_ds_decision target gs
+  end.
 End DS3.
